@@ -7,7 +7,7 @@ MODEL = "lean/Sentinel/Validity.lean (VFlow/VBr/VHs/VIso/VSys .check) against Se
 RULE = ("one child process per case. Every combination of enum-valued fields is enumerated: flow calculate{Direct,WarmUp,MemoryAdaptive,Custom} x control{Reject,Throttling,Custom} x "
         "relation{Current, Associated to a seen resource, Associated to a never-seen resource, Associated with empty ref}; breaker strategy{SlowRequestRatio,ErrorRatio,ErrorCount,Custom}; "
         "hotspot metric{Concurrency,QPS} x control{Reject,Throttling,Custom} x param_index -3..3 x key{none,present,blank}; isolation; system metric{Load,AvgRT,Concurrency,InboundQPS,CpuUsage} x "
-        "strategy{NoAdaptive,BBR}; each with k draws (quick 2, thorough 24) of the numeric fields from boundary grids (thresholds 0, fractions, 1, 1e6, negative, NaN, inf; intervals 0, 1, "
+        "strategy{NoAdaptive,BBR}; each with k draws (quick 2, thorough 8) of the numeric fields from boundary grids (thresholds 0, fractions, 1, 1e6, negative, NaN, inf; intervals 0, 1, "
         "non-dividing, 600000, u32::MAX; zero durations; empty and blank names; memory marks around the machine's total memory), loaded through load_rules / load_rules_of_resource / append_rule "
         "(also with an empty resource name), followed by 2-8 entries (batch 0/1/5/1e6; args none/empty/short/long; attachments; inbound/outbound; clock advances; exits with and without error) "
         "and a health probe of all five managers (get_rules, load a valid rule for an unrelated resource, entry, exit, clear). Extra streams: hotspot rules with LRU capacity 1..3 under 15-30 "
@@ -368,7 +368,7 @@ def inflight_cases(rng):
 
 
 def gen(rng, tier):
-    k = 2 if tier == "quick" else 24
+    k = 2 if tier == "quick" else 8
     seq = sequence_cases(rng)
     if tier == "quick":
         seq = [c for c in seq if rng.random() < 0.45]       # every refusal clause still meets several entry-point pairs
